@@ -140,7 +140,9 @@ func (propC16) Exec(p *Plan, x *Ctx) *Outcome {
 				return true
 			}
 			// model: longest registered prefix, else the next single character
-			wantText, wantType := string(in[:1]), tokenizers.Symbol
+			// an unregistered single character comes back on its own; the statement fixes the type only
+			// for registered symbols ("with that symbol's token type"), so -1 means "not asserted"
+			wantText, wantType := string(in[:1]), -1
 			for l := len(in); l >= 1; l-- {
 				if t, ok := model[string(in[:l])]; ok {
 					wantText, wantType = string(in[:l]), t
@@ -164,11 +166,11 @@ func (propC16) Exec(p *Plan, x *Ctx) *Outcome {
 			out.State(len(model), wantText, lastRead)
 			prev := lastRead
 			lastRead = wantText
-			if tok.Value() != wantText || tok.Type() != wantType || consumed != len([]rune(wantText)) {
+			if tok.Value() != wantText || (wantType >= 0 && tok.Type() != wantType) || consumed != len([]rune(wantText)) {
 				kind := "text"
 				if tok.Value() == wantText {
 					kind = "type"
-					if tok.Type() == wantType {
+					if wantType < 0 || tok.Type() == wantType {
 						kind = "consumed"
 					}
 				}
